@@ -368,10 +368,11 @@ Definition step_stream (s : stream) (a : actor) (e : sev) : option stream :=
   end.
 
 (* ------------------------------------------------------------------------------------------------ two streams + the API *)
-Inductive call := InIdle | InStart | InStartFail | InStop | InAbort | InShutdown.
+Inductive call := InIdle | InStart | InStartBusy | InStartFail | InStop | InAbort | InShutdown.
 Inductive gev :=
 | GConfigure (v0 v1 : bool) (n0 n1 : N)       (* acquire_configure returned: valid bits, max frame counts *)
 | GStartCall | GStartRet (ok : bool)
+| GStartRefused                                 (* the HAL refused to start a storage that is not Armed (start while running) *)
 | GStopCall | GStopRet
 | GAbortCall | GAbortRet
 | GShutdownCall | GShutdownRet
@@ -435,8 +436,20 @@ Definition step (y : sys) (ev : event) : option sys :=
       match in_call y with
       | InIdle => if valid (st0 y) || valid (st1 y) then
                     if workers_idle (st0 y) && workers_idle (st1 y)
-                    then Some (y <| in_call := InStart |> <| st0 ::= begin_start |> <| st1 ::= begin_start |>) else None
+                    then Some (y <| in_call := InStart |> <| st0 ::= begin_start |> <| st1 ::= begin_start |>)
+                    else Some (y <| in_call := InStartBusy |>)   (* start while a worker is alive: see GStartRefused *)
                   else Some (y <| in_call := InStartFail |>)     (* no valid stream: acquire_start fails at once (and aborts nothing) *)
+      | _ => None
+      end
+  | EvG GStartRefused =>
+      (* acquire_start on a runtime whose first valid stream is still running: video_sink_start fails because the HAL refuses to
+         start a storage that is Running; no device is touched; the error path aborts every stream *)
+      match in_call y with
+      | InStartBusy =>
+          let s := if valid (st0 y) then st0 y else st1 y in
+          if hst_eqb (sto_st s) HRunning
+          then Some (y <| st0 ::= fail_start |> <| st1 ::= fail_start |> <| in_call := InStartFail |>)
+          else None
       | _ => None
       end
   | EvG (GStartRet ok) =>
